@@ -34,6 +34,10 @@ func (r *Reader) Read(n int) uint {
 	if r.err != nil {
 		return 0
 	}
+	if n < 0 || n > 64 {
+		r.err = fmt.Errorf("cannot read %d bits", n)
+		return 0
+	}
 
 	for r.n < n {
 		r.value <<= 8
